@@ -56,8 +56,8 @@ def kitchen_sink_src(date="2024-01-01T00:00:00", ns_prefix="xtce") -> str:
                  f'byte_order="leastSignificantByteFirst", default_calibrator={poly}, context_calibrators=[{C}.ContextCalibrator([{M}.Comparison("0", "FLAG", operator="<")], {spline0})]), unit="V")'),
         "MIL": f'parameter_types.FloatParameterType("MIL_T", {E}.FloatDataEncoding(32, encoding="MILSTD_1750A"))',
         "HALF": f'parameter_types.FloatParameterType("HALF_T", {E}.FloatDataEncoding(16))',
-        "STATE": f'parameter_types.EnumeratedParameterType("STATE_T", {_int(8)}, {{0: "OFF", 1: "ON", 255: "FAULT"}}, unit="state")',
-        "ARMED": f'parameter_types.BooleanParameterType("ARMED_T", {_int(8)}, unit="bool")',
+        "STATE": f'parameter_types.EnumeratedParameterType("STATE_T", {_int(8, default_calibrator=poly)}, {{0: "OFF", 1: "ON", 255: "FAULT"}}, unit="state")',
+        "ARMED": f'parameter_types.BooleanParameterType("ARMED_T", {_int(8, default_calibrator=f"{C}.PolynomialCalibrator([{C}.PolynomialCoefficient(-1.0, 0), {C}.PolynomialCoefficient(1.0, 1)])")}, unit="bool")',
         "NLEN": f'parameter_types.IntegerParameterType("NLEN_T", {_int(8, default_calibrator=poly)})',
         "NAME":
         (f'parameter_types.StringParameterType("NAME_T", {E}.StringDataEncoding(encoding="UTF-16", '
